@@ -24,6 +24,8 @@ def render(e):
         return str(e[1])
     if k == 'txt':
         return '"%s"' % e[1]
+    if k == 'bool':
+        return 'TRUE' if e[1] else 'FALSE'
     if k == 'div0':
         return '1/0'
     if k == 'raise':
@@ -47,7 +49,7 @@ RAISERS = {'AttributeError': 'DAY(A7)', 'IndexError': 'VLOOKUP(1,A2:A3,3,FALSE()
 
 
 def atom(e):
-    return render(e) if e[0] in ('cell', 'lit', 'txt', 'if', 'iferror', 'ifs', 'sum', 'raise') else '(%s)' % render(e)
+    return render(e) if e[0] in ('cell', 'lit', 'txt', 'bool', 'if', 'iferror', 'ifs', 'sum', 'raise') else '(%s)' % render(e)
 
 
 def coq(e):
@@ -59,6 +61,8 @@ def coq(e):
         return '(Leaf (VInt %s))' % C.cz(e[1])
     if k == 'txt':
         return '(Leaf (VStr %s))' % C.cstr(e[1])
+    if k == 'bool':
+        return '(Leaf (VBool %s))' % C.cbool(e[1])
     if k == 'div0':
         return '(Bin (BArith ADiv) (Leaf (VInt 1%Z)) (Leaf (VInt 0%Z)))'
     if k == 'raise':
@@ -81,7 +85,7 @@ def coq(e):
 
 
 def depth(e):
-    if e[0] in ('cell', 'lit', 'txt', 'div0', 'raise'):
+    if e[0] in ('cell', 'lit', 'txt', 'bool', 'div0', 'raise'):
         return 0
     subs = [x for x in e[1:] if isinstance(x, (tuple, list)) and x and isinstance(x[0], (str, tuple))]
     flat = []
@@ -99,8 +103,10 @@ def gen_leaf(rng, failing=True):
         return ('cell', rng.choice(list(CELLS) + ['A9']))
     if r < 0.8:
         return ('lit', rng.randint(0, 9))
-    if r < 0.88:
+    if r < 0.86:
         return ('txt', rng.choice(['x', 'yes', 'no']))
+    if r < 0.88:
+        return ('bool', rng.random() < 0.5)
     if failing and r < 0.93:
         return ('div0',)
     if failing and r < 0.97:
@@ -121,6 +127,10 @@ def gen_expr(rng, d):
     if d <= 0:
         return gen_leaf(rng)
     r = rng.random()
+    if r < 0.06:
+        # IF(cond, TRUE, FALSE) and its variants: the shape a "simplification" to the bare condition would touch
+        t, f = rng.choice([(True, False), (False, True), (True, None), (True, True)])
+        return ('if', gen_cond(rng, d - 1), ('bool', t), None if f is None else ('bool', f))
     if r < 0.3:
         return ('if', gen_cond(rng, d - 1), gen_expr(rng, d - 1), gen_expr(rng, d - 1) if rng.random() < 0.8 else None)
     if r < 0.5:
